@@ -258,7 +258,7 @@ class Gen:
 
 class C09(Prop):
     ID = "C09"
-    LEVEL = "proof"
+    LEVEL = "proof (module-expression, entry-point/RVA and repaired-loop kernels) + exploration (file-format modules)"
     COQ_TARGETS = ["theories/Properties/C09.vo"]
     MODEL_TARGETS = ["theories/Model/ModuleTypes.vo", "theories/Model/ModuleTrees.vo", "theories/Model/ModArgs.vo"]
     CASE_HEADER = "From Boreal Require Import Base.Prelude Base.Res Model.ModArgs."
